@@ -45,13 +45,17 @@ CellPts(m, k) == [j \in DOMAIN m.t[k] |-> m.p[m.t[k][j]]]
 QuadTriples == << <<1, 2, 3>>, <<1, 2, 4>>, <<1, 3, 4>>, <<2, 3, 4>> >>
 Sub(P, ix) == [j \in DOMAIN ix |-> P[ix[j]]]
 
-\* faces of the polyhedral cells as local vertex sets (MeshTopology.RefFacets); three vertices span the
-\* face plane, the remaining vertices of the cell lie on the inner side (convex cell with planar faces)
+\* faces of the polyhedral cells: <<a, b, c, o>> = three local vertices spanning the face plane and one
+\* vertex off the face (convex cell with planar faces: all off-face vertices lie strictly on the inner side,
+\* which PolyInScope checks from MeshTopology.RefFacets)
+PolyFaces(kind) ==
+  CASE kind = "hex"   -> << <<1, 2, 3, 8>>, <<1, 2, 4, 8>>, <<1, 3, 4, 8>>, <<2, 5, 8, 1>>, <<3, 5, 8, 1>>, <<4, 6, 8, 1>> >>
+    [] kind = "wedge" -> << <<1, 2, 3, 4>>, <<4, 5, 6, 1>>, <<1, 2, 4, 3>>, <<2, 3, 5, 1>>, <<1, 3, 4, 2>> >>
 FaceTriple(F) == LET s == SortedSeq(F) IN <<s[1], s[2], s[3]>>
-FaceSide(P, F) ==                      \* sum of the signed heights of the vertices off the face
-  LET a == FaceTriple(F) IN
-  SumOver([v \in DOMAIN P |-> IF v \in F THEN 0 ELSE Orient3(P[a[1]], P[a[2]], P[a[3]], P[v])], DOMAIN P)
-FaceHeight(P, F, x) == LET a == FaceTriple(F) IN Orient3(P[a[1]], P[a[2]], P[a[3]], x)
+\* signed height of x over face f, oriented so that the inside is positive; and the height of the off vertex
+FaceHeightIn(P, f, x) ==
+  LET o == Orient3(P[f[1]], P[f[2]], P[f[3]], P[f[4]]) IN
+  [h |-> Sgn(o) * Orient3(P[f[1]], P[f[2]], P[f[3]], x), ref |-> Abs(o)]
 
 PolyInScope(kind, P) ==
   \A F \in RefFacets(kind) :
@@ -74,14 +78,14 @@ CellInScope(kind, P) ==
 InClosedCell(kind, P, x) ==
   CASE kind \in {"line", "tri", "tet"} -> InClosedSimplex(P, x)
     [] kind = "quad" -> \E i \in 1..4 : InClosedSimplex(Sub(P, QuadTriples[i]), x)
-    [] OTHER -> \A F \in RefFacets(kind) : Sgn(FaceSide(P, F)) * FaceHeight(P, F, x) >= 0
+    [] OTHER -> LET fs == PolyFaces(kind) IN \A j \in DOMAIN fs : FaceHeightIn(P, fs[j], x).h >= 0
 
 \* x lies in the cell enlarged by the relative margin 2^-10
 NearCell(kind, P, x) ==
   CASE kind \in {"line", "tri", "tet"} -> NearSimplex(P, x)
     [] kind = "quad" -> \E i \in 1..4 : NearSimplex(Sub(P, QuadTriples[i]), x)
-    [] OTHER -> \A F \in RefFacets(kind) :
-                  Sgn(FaceSide(P, F)) * FaceHeight(P, F, x) > -Margin(FaceSide(P, F))
+    [] OTHER -> LET fs == PolyFaces(kind) IN
+                \A j \in DOMAIN fs : LET r == FaceHeightIn(P, fs[j], x) IN r.h > -Margin(r.ref)
 
 MeshInScope(m) == \A k \in DOMAIN m.t : CellInScope(m.kind, CellPts(m, k))
 Containing(m, x) == {k \in DOMAIN m.t : InClosedCell(m.kind, CellPts(m, k), x)}
